@@ -997,8 +997,8 @@ def weird_net(rng, idx=0):
 PATTERNS = ["multi_input", "input_npu_and_cpu", "residual", "lut_reuse", "deep_slices", "fc1_after_conv", "nobias",
             "casc_s2_valid", "two_npu_islands", "concat_slices", "shared_weights", "big_fm_u65", "avgpool_chain", "minmax_lrelu", "reshape_fork", "widen_ew", "shared_consts"]
 # families defined in netgen_ext.py (imported lazily: that module imports this one)
-EXT_PATTERNS = ["lut_mixed", "shape_out", "transpose_perm", "ew_fork", "fc1_two_core"]
-EXT_PATTERNS += ["multi_out_cpu"]          # gen_multiout.py (round 5)
+EXT_PATTERNS = ["lut_mixed", "shape_out", "transpose_perm", "ew_fork", "fc1_two_core", "near_scale"]
+EXT_PATTERNS += ["multi_out_cpu", "slice_masks"]          # round 5: gen_multiout.py, gen_ssmask.py
 PATTERNS += EXT_PATTERNS
 
 
